@@ -168,6 +168,7 @@ def run(ctx: Ctx, sub=None, dynamic: bool = True) -> None:
         if not (isinstance(cls, type) and attrs.has(cls)):
             fail("not-attrs-class", cls_name, f"{cls!r}")
             return
+        sub.container = key[1] if key[0] == "struct" else None
         fields = {f.name: f for f in attrs.fields(cls)}
         expected_attrs = {}
         for p in props:
@@ -240,18 +241,30 @@ def run(ctx: Ctx, sub=None, dynamic: bool = True) -> None:
             continue
         expected_classes[name] = cls
         check_class(name, ("struct", name), cls)
+    sub.container = None
     # --- and / non-empty literal types ---------------------------------------------------
     for locus, ty in sub.objects.type_at.items():
         if ty["kind"] == "and" or (ty["kind"] == "literal" and ty["value"]["properties"]):
             key = ("and" if ty["kind"] == "and" else "lit", locus)
-            evaluations += 1
-            try:
-                cls = sub.class_for(key)
-            except Exception as e:
-                fail("missing-definition", locus, f"no class for anonymous type: {e!r}")
-                continue
-            expected_classes[cls.__name__] = cls
-            check_class(cls.__name__, key, cls)
+            containers: List[Optional[str]] = [None]
+            if key[0] == "lit" and locus.startswith("struct:"):
+                sname, pname = locus.split("|")[0][len("struct:"):].split(".", 1)
+                containers += [s for s in m.structs if s != sname and any(
+                    p["name"] == pname and p["_declared_in"] == sname for p in m.flat_props(s))]
+            for cont in containers:  # the literal's class in the declaring structure and in every inheritor
+                evaluations += 1
+                sub.container = cont
+                try:
+                    cls = sub.class_for(key)
+                except Exception as e:
+                    fail("missing-definition", locus, f"no class for anonymous type (container {cont}): {e!r}")
+                    continue
+                finally:
+                    sub.container = None
+                if cls.__name__ not in expected_classes:
+                    expected_classes[cls.__name__] = cls
+                    check_class(cls.__name__, key, cls)
+    sub.container = None
     # --- enumerations ---------------------------------------------------------------------
     for name, e in m.enums.items():
         evaluations += 1
